@@ -159,7 +159,7 @@ def h_codec(eng, case):
     eng.reach('end')
 
 
-def _mk_state(front, eng, calls, outcomes, tag):
+def _mk_state(front, eng, calls, outcomes, tag, cbp=False):
     """fresh application with one handler on /p and one pending Interest on /a/b"""
     import ndn.types as types
     app, face = appenv.make_app(front)
@@ -183,9 +183,10 @@ def _mk_state(front, eng, calls, outcomes, tag):
     async def consumer():
         try:
             if front == 'v2':
-                n, c, ctx = await app.express('/a/b', pass_v2, lifetime=4000, nonce=9)
+                n, c, ctx = await app.express('/a/b', pass_v2, lifetime=4000, nonce=9, can_be_prefix=cbp)
             else:
-                n, m, c = await app.express_interest('/a/b', validator=pass_v1, lifetime=4000, nonce=9)
+                n, m, c = await app.express_interest('/a/b', validator=pass_v1, lifetime=4000, nonce=9,
+                                                     can_be_prefix=cbp)
             outcomes[tag] = ('data', None if c is None else bytes(c))
         except types.InterestNack as e:
             outcomes[tag] = ('nack', e.reason)
@@ -259,7 +260,7 @@ def h_nack(eng, case):
     front = case['front']
     REPLY[0] = b''
     calls, outcomes = [], {}
-    app, face, cons = _mk_state(front, eng, calls, outcomes, 'x')
+    app, face, cons = _mk_state(front, eng, calls, outcomes, 'x', cbp=bool(case.get('cbp')))
     reason = eng.int('reason', 0, 2 ** 64 - 1)
     hdr = sym_headers(eng, case['headers'])
     hdr['nack'] = reason
@@ -271,7 +272,9 @@ def h_nack(eng, case):
         t = asyncio.ensure_future(cons())
         await asyncio.sleep(0)
         sent = face.out[-1]
-        frag = sent if which == 'pending' else bytes(enc.make_interest('/a/c', enc.InterestParam(nonce=9)))
+        other = {'other': '/a/c', 'longer': '/a/b/x', 'shorter': '/a', 'root': '/'}.get(which)
+        frag = sent if which == 'pending' else bytes(enc.make_interest(other, enc.InterestParam(
+            nonce=9, can_be_prefix=bool(case.get('cbp')))))
         w = canonical_lp(eng, hdr, frag) if case.get('canonical', True) else build_lp(eng, hdr, frag)
         await vloop.sleep_until(loop, loop.at_ms(5))
         try:
@@ -423,6 +426,11 @@ def cases(tier, seed):
                 for tok in (0, 4) if front == 'v2' or hs == [] else (0,):
                     cs.append(('nack', {'front': front, 'target': target, 'headers': hs, 'token': tok}, {'weight': 3}))
                 cs.append(('nack', {'front': front, 'target': target, 'headers': hs, 'canonical': False}, {'weight': 3}))
+        # a Nack that names a longer / shorter name than the pending Interest (which may carry CanBePrefix) names
+        # another Interest
+        for target in ('longer', 'shorter', 'root'):
+            for cbp in (False, True):
+                cs.append(('nack', {'front': front, 'target': target, 'headers': [], 'token': 0, 'cbp': cbp}, {'weight': 3}))
         cs.append(('frag', {'front': front}, {'weight': 3}))
     for l0 in (None, 0, 2, 4, 32):
         for l1 in (None, 0, 2, 4, 32):
